@@ -347,6 +347,8 @@ class UAIWriter(object):
         """
         Returns the UAI file as a string.
         """
+        # Build the text from the header every time (the method may be called repeatedly).
+        self.network = self.network.split("\n")[0] + "\n"
         self.network += self.no_nodes + "\n"
         domain = sorted(self.domain.items(), key=lambda x: (x[1], x[0]))
         self.network += " ".join([var[1] for var in domain]) + "\n"
